@@ -248,9 +248,65 @@ func (c Conn) RemoteAddr() net.Addr { return addr("peer:" + c.L.Name) }
 
 // ---------------------------------------------------------------- scripted side
 
+// clonePacket copies a packet without the library's encoder: the scripted peer stands for a foreign
+// implementation, so what it can put on the wire must not depend on the codec under test.
+func clonePacket(pkt packet.Generic) (packet.Generic, error) {
+	switch p := pkt.(type) {
+	case *packet.Connect:
+		c := *p
+		if p.Will != nil {
+			w := *p.Will
+			w.Payload = append([]byte(nil), p.Will.Payload...)
+			c.Will = &w
+		}
+		return &c, nil
+	case *packet.Connack:
+		c := *p
+		return &c, nil
+	case *packet.Publish:
+		c := *p
+		c.Message.Payload = append([]byte(nil), p.Message.Payload...)
+		return &c, nil
+	case *packet.Puback:
+		c := *p
+		return &c, nil
+	case *packet.Pubrec:
+		c := *p
+		return &c, nil
+	case *packet.Pubrel:
+		c := *p
+		return &c, nil
+	case *packet.Pubcomp:
+		c := *p
+		return &c, nil
+	case *packet.Subscribe:
+		c := *p
+		c.Subscriptions = append([]packet.Subscription(nil), p.Subscriptions...)
+		return &c, nil
+	case *packet.Suback:
+		c := *p
+		c.ReturnCodes = append([]packet.QOS(nil), p.ReturnCodes...)
+		return &c, nil
+	case *packet.Unsubscribe:
+		c := *p
+		c.Topics = append([]string(nil), p.Topics...)
+		return &c, nil
+	case *packet.Unsuback:
+		c := *p
+		return &c, nil
+	case *packet.Pingreq:
+		return packet.NewPingreq(), nil
+	case *packet.Pingresp:
+		return packet.NewPingresp(), nil
+	case *packet.Disconnect:
+		return packet.NewDisconnect(), nil
+	}
+	return nil, fmt.Errorf("unknown packet type")
+}
+
 // PSend puts a packet on the wire towards gomqtt (logged as psend). It returns false if the link is no longer up.
 func (l *Link) PSend(pkt packet.Generic) bool {
-	cp, err := copyPacket(pkt)
+	cp, err := clonePacket(pkt)
 	l.Log.Mu.Lock()
 	defer l.Log.Mu.Unlock()
 	if l.state != "up" {
